@@ -80,6 +80,8 @@ int main(void) {
     while((line = zh_readline(stdin))) {
         size_t L = strlen(line) + 1;
         char *a = malloc(L), *b = malloc(L), *c = malloc(L), *d = malloc(L);
+        int retry_mode = 0;
+        if(line[0] == 'W' && line[1] == 'c') { retry_mode = 1; memmove(line + 1, line + 2, strlen(line + 2) + 1); }
         if(sscanf(line, "W %s %s %s", a, b, c) == 3) {
             int comp = atoi(a);
             int out = zh_memfd("", 0);
@@ -93,10 +95,18 @@ int main(void) {
             if(okw && (!zck_set_ioption(z, ZCK_COMP_TYPE, comp) || !zck_set_ioption(z, ZCK_MANUAL_CHUNK, 1))) okw = 0;
             char *save = NULL;
             for(char *o = strtok_r(b, ",", &save); o && okw; o = strtok_r(NULL, ",", &save)) {
-                if(o[0] == 'e') { if(zck_end_chunk(z) < 0) okw = 0; }
-                else { size_t n; unsigned char *raw = zh_unhex(o + 1, &n);
-                       if(zck_write(z, (char*)raw, n) != (ssize_t)n) okw = 0; free(raw); }
+                int tries = 0, done_op = 0;
+                while(!done_op) {
+                    if(o[0] == 'e') { done_op = zck_end_chunk(z) >= 0; }
+                    else { size_t n; unsigned char *raw = zh_unhex(o + 1, &n);
+                           done_op = zck_write(z, (char*)raw, n) == (ssize_t)n; free(raw); }
+                    if(done_op) break;
+                    /* a caller following the error API: a cleared error means "recoverable, try again" */
+                    if(retry_mode && tries++ < 1 && zck_clear_error(z)) continue;
+                    okw = 0; break;
+                }
             }
+            if(retry_mode && !okw) zck_clear_error(z);
             int cl = zck_close(z);
             zh_armed = 0; trace_on = 0;
             printf(" calls=%ld/%ld/%ld fired=%d writes_ok=%d close=%d", zh_count[0], zh_count[1], zh_count[2], zh_fired, okw, cl);
